@@ -262,3 +262,20 @@ Theorem C03_concat_fixed_accepts_exactly : forall axis ops ref ax,
   Extra.concat_shape axis (ExtraProofs.kept ops) = Extra.concat_shape axis (map snd ops).
 Proof. exact ExtraProofs.concat_drop_fixed_accepts_exactly. Qed.
 Print Assumptions C03_concat_fixed_accepts_exactly.
+
+(* ---- attributes given by reference to a function attribute (ir.Attr.is_ref(): no value inside the function body).
+   As read, process_node treats them as absent: the faithful model folds Neg<k = @a>(2) (and Shape<start = @a>, LeakyRelu<alpha = @a>,
+   Transpose<perm = @p> ... with the operator defaults: the known findings C03:fold:reference-attribute-read-as-absent:... ).
+   Repaired (the translator reads which variant the source is in): every such node is kept. *)
+Theorem C03_reference_attribute_as_read_folded_refuted :
+  match decide_variant Z z_ref (fun _ => DT_BOOL) (fun _ => []) (fun z => Some [z]) (fun _ => true) (pe_none Z) ex_cfg false false ex_state ref_node with
+  | DFoldInit _ _ "y" v => v = (-2)%Z
+  | _ => False
+  end.
+Proof. exact reference_attribute_as_read_folded. Qed.
+Print Assumptions C03_reference_attribute_as_read_folded_refuted.
+
+Theorem C03_reference_attribute_nodes_kept_fixed : forall V ref_eval v_dtype v_dims v_ints v_tensor pe cfg isf (st : state V) n,
+  has_ref_attr n = true -> decide_variant V ref_eval v_dtype v_dims v_ints v_tensor pe cfg true isf st n = DKeep V RRefAttr st.
+Proof. exact decide_variant_keeps_reference_attributes. Qed.
+Print Assumptions C03_reference_attribute_nodes_kept_fixed.
